@@ -120,6 +120,15 @@ def gen_cases(tier, seed):
                 base = [A.rep_kvs(pu, 1)[1], A.rep_kvs(pv, 1)[2]]
                 cases.append(dict(shape=A.shape_desc([A.affine_kv(base[0], a, s), A.affine_kv(base[1], 1.0, 2.0)], [pu, pv],
                                                      True, 3, 'coded', 'coded', normalize_kv=norm), affine=[a, s]))
+    # ---- the documented alternative span search selected at construction (derivatives are taken from the right at knots
+    # whichever search is used)
+    for p in (1, 2, 3):
+        for kv in A.clamped_kvs(p, 2, 4):
+            if len(kv) > 2 * (p + 1):
+                cases.append(dict(shape=A.shape_desc([kv], [p], p == 2, 3, 'coded', 'coded'), binsearch=True, parts=['derivs', 'tangent']))
+    for pu, pv in ((2, 1), (1, 3), (3, 2)):
+        ku, kv = A.rep_kvs(pu, 2)[-2], A.rep_kvs(pv, 2)[-1]
+        cases.append(dict(shape=A.shape_desc([ku, kv], [pu, pv], pu == 3, 3, 'coded', 'coded'), binsearch=True, parts=['derivs']))
     # ---- read - mutate - read: queries first on the original knot vectors, then the interior knots are moved
     # (x -> x*x keeps the vector clamped, sorted, of the same length and multiplicities) and everything is judged again
     def moved(kv):
@@ -194,7 +203,11 @@ def _setup(case, ctx):
     """object, exact model, per-direction parameter sets, scale data, common features"""
     desc = case['shape']
     seed = ctx.seed
-    obj = S.build(desc, seed)
+    if case.get('binsearch'):
+        from geomdl import helpers
+        obj = S.build(desc, seed, find_span_func=helpers.find_span_binsearch)
+    else:
+        obj = S.build(desc, seed)
     pd = desc['pdim']
     if case.get('edit_kvs'):
         # read - mutate - read: every query is first made on the object with its ORIGINAL knot vectors (at the parameters
@@ -232,7 +245,7 @@ def _setup(case, ctx):
                  full_mult_knot=any(c0), full_mult_knot_u=c0[0], full_mult_knot_v=c0[-1] if pd > 1 else False,
                  net=desc['net'].split(':')[0], weights=desc.get('weights', 'ones'),
                  normalize_kv=desc.get('normalize_kv', True), unclamped=bool(case.get('unclamped')),
-                 affine=bool(case.get('affine')), after_edit=bool(case.get('edit_kvs')))
+                 affine=bool(case.get('affine')), after_edit=bool(case.get('edit_kvs')), binsearch=bool(case.get('binsearch')))
     ctx.state(dict(d=desc, s=seed if 'seeded' in (desc['net'], desc.get('weights')) else 0),
               nontrivial=A.is_nontrivial(desc))
 
